@@ -14,7 +14,7 @@ import json
 import re
 from fractions import Fraction as F
 
-from checks.c13 import (ccell, clist, copt, cpt, cq, cz, fq, gen_groups, gen_tree, all_parent_vectors, jq, reference,
+from checks.c13 import (WORKERS, ccell, clist, copt, cpt, cq, cz, fq, gen_groups, gen_tree, all_parent_vectors, jq, reference,
                         case_payload, parse_mismatches)
 from lib.vcommon import coq_str
 
@@ -90,7 +90,7 @@ def gen_cases(ck):
                                 prox_prob=rng.choice([0.0, 0.3, 0.7, 1.0]), doc=rng.choice(["shuffle", "topo", "reverse"]),
                                 parents=pv)
                 cases.append(gen_case(rng, segs, kind="exhaustive-shape:n=%d" % n))
-    for k in range(ck.n(120, 1200)):
+    for k in range(ck.n(120, 2400)):
         r = rng.random()
         n = rng.randrange(1, 9) if r < 0.3 else rng.randrange(9, 30) if r < 0.9 else rng.randrange(30, ck.n(60, 120))
         segs = gen_tree(rng, n, shape=rng.choice(["uniform", "chain", "star", "binary", "bushy", "deep"]),
@@ -355,11 +355,16 @@ def run(ck):
     t3 = time.time()
     CH = 150
     nmis = 0
+    jobs = []
     for fi, k in enumerate(range(0, len(cases), CH)):
         chunk = list(zip(cases[k:k + CH], outs[k:k + CH]))
         text = HEADER + "Definition cases : list case16 := [\n%s\n].\nEval vm_compute in (mismatches16 cases).\n" % \
             ";\n".join(ccase(c, o) for c, o in chunk)
-        ok, res, outp = ck.coq_eval("Cases_C16_%d.v" % fi, text, timeout=900)
+        jobs.append((fi, chunk, text))
+    from concurrent.futures import ThreadPoolExecutor
+    with ThreadPoolExecutor(max_workers=WORKERS) as ex:
+        evals = list(ex.map(lambda j: ck.coq_eval("Cases_C16_%d.v" % j[0], j[2], timeout=1500), jobs))
+    for (fi, chunk, _), (ok, res, outp) in zip(jobs, evals):
         name = "Cases_C16_%d.v:mismatches16=[]" % fi
         if not ok or not res:
             ck.oblige(name, False, outp[-1500:], kind="correspondence")
